@@ -616,6 +616,14 @@ func (c01) Eval(t *testing.T, c *Case, dec func(int) *Decider) *Outcome {
 		ending = "fail"
 		o.Stats.probe("fixed-length-commit-refused")
 	}
+	if ending == "normal" && p.ExitCode != 0 && strings.Contains(p.ErrText, "to set in the field") && strings.Contains(p.ErrText, "is ambiguous") {
+		// a join update whose joined table has got two records with the same key (an INSERT repeated by a
+		// loop): csvq rightly refuses the statement, which makes this an ending by error (seen once in
+		// 530 000 thorough evaluations, where it was first reported as scenario-error: a false alarm of
+		// the generator, not a finding)
+		ending = "fail"
+		o.Stats.probe("join-update-ambiguous:ending-by-error")
+	}
 	if ending == "normal" && p.ExitCode != 0 && meta.Refuse != "" && strings.Contains(p.ErrText, "failed to commit") {
 		// the table that cannot be encoded: COMMIT refuses, which makes this an ending by error
 		ending = "fail"
